@@ -74,15 +74,16 @@ type simSample struct {
 }
 
 type simCfg struct {
-	Opaque map[string]bool // unique result, not inlined
-	Pure   map[string]bool // canonical result term
-	Event  map[string]bool // recorded as event (and treated as Opaque unless in Inline)
-	Inline map[string]bool // in-package functions to inline; if nil, all not otherwise listed
+	Opaque          map[string]bool // unique result, not inlined
+	Pure            map[string]bool // canonical result term
+	Event           map[string]bool // recorded as event (and treated as Opaque unless in Inline)
+	Inline          map[string]bool // in-package functions to inline; if nil, all not otherwise listed
 	NoInlineDefault bool
 	// Model, if set, is asked first.
-	Keep  map[string]bool // events whose pointer arguments are not havocked
-	Model func(c *simClient, x *Exec, st *State, fr *Frame, site ssa.CallInstruction, name string, callee *ssa.Function, fnTerm *Term, args []*Term) (bool, []CallOut)
-	OnStoreHook func(c *simClient, x *Exec, st *State, fr *Frame, pos token.Pos, addr, val *Term)
+	Keep          map[string]bool // events whose pointer arguments are not havocked
+	NoLoopSamples bool            // only function exits are sampled
+	Model         func(c *simClient, x *Exec, st *State, fr *Frame, site ssa.CallInstruction, name string, callee *ssa.Function, fnTerm *Term, args []*Term) (bool, []CallOut)
+	OnStoreHook   func(c *simClient, x *Exec, st *State, fr *Frame, pos token.Pos, addr, val, old *Term)
 }
 
 type simClient struct {
@@ -153,7 +154,7 @@ func (c *simClient) Call(x *Exec, st *State, fr *Frame, site ssa.CallInstruction
 	if c.cfg.Pure[name] {
 		as := append([]*Term{}, args...)
 		for _, a := range args {
-			if (a.Op == "alloc" || a.Op == "field" || a.Op == "index" || ((a.Op == "param" || a.Op == "free") && isPointerTerm(a))) {
+			if addressLike(a) {
 				as = append(as, memSnap(st, a))
 			}
 		}
@@ -183,13 +184,16 @@ func (c *simClient) BeforeInline(x *Exec, st *State, fr *Frame, site ssa.CallIns
 }
 func (c *simClient) AfterInline(x *Exec, st *State, fr *Frame, site ssa.CallInstruction, callee *ssa.Function, args []*Term, val *Term) {
 }
-func (c *simClient) OnStore(x *Exec, st *State, fr *Frame, pos token.Pos, addr, val *Term) {
+func (c *simClient) OnStore(x *Exec, st *State, fr *Frame, pos token.Pos, addr, val, old *Term) {
 	if c.cfg.OnStoreHook != nil {
-		c.cfg.OnStoreHook(c, x, st, fr, pos, addr, val)
+		c.cfg.OnStoreHook(c, x, st, fr, pos, addr, val, old)
 	}
 }
 
 func (c *simClient) OnLoopLeave(x *Exec, st *State, fr *Frame, cur *Term, fromHeader bool) {
+	if c.cfg.NoLoopSamples {
+		return
+	}
 	k := "break"
 	if fromHeader {
 		k = "done"
@@ -198,6 +202,9 @@ func (c *simClient) OnLoopLeave(x *Exec, st *State, fr *Frame, cur *Term, fromHe
 }
 
 func (c *simClient) OnBackEdge(x *Exec, st *State, fr *Frame, cur *Term) {
+	if c.cfg.NoLoopSamples {
+		return
+	}
 	c.Samples = append(c.Samples, simSample{Kind: "back", Loop: cur.key, St: st.clone(), Fr: fr, Events: append([]*Term(nil), c.g(st).events...)})
 }
 
